@@ -312,6 +312,8 @@ def main(argv=None):
     # lower layers whose specifications this check relies on: their obligations are part of this check's claim (framework.Check.include)
     for dep in ['C06', 'C02', 'C03', 'C04', 'C05', 'C07', 'C01', 'C08', 'C10', 'C19', 'C20']:
         chk.include(dep)
+    # objects that arrive through unmarshal are the marshalled ones (parameters and keys loaded from bytes are part of 'reachable through the API'): C15's own obligations
+    chk.include("C15")
     chk.run()
     chk.finish()
 
